@@ -198,6 +198,43 @@ fn flow_special(which_full: &str, seed: u64) -> Result<Outputs, String> {
                 }
             }
         }
+        "KZGB" => {
+            // batch verifier only: 10 (odd: 17) openings of one commitment at different points; the all-true batch,
+            // every single position falsified, and every pair of positions carrying +d / -d (which cancels
+            // exactly when two positions get the same weight).  A verifier that splits the batch by
+            // `current_num_threads()` must take the same decisions for every pool size.
+            let n = if odd { 17usize } else { 10 };
+            let pp = kzg_setup(6, false, seed, 0);
+            let powers = kzg_powers(&pp, 6, 3);
+            let vk = kzg_vk(&pp);
+            let p = UP::<Fr381>::from_coefficients_slice(&r[..6]);
+            for h in [None, Some(1usize)] {
+                let mut rng = seed_rng(seed, 0);
+                let (c, st) = Kzg::commit(&powers, &p, h, Some(&mut rng as &mut dyn RngCore)).map_err(|e| format!("{:?}", e))?;
+                let zs: Vec<Fr381> = (0..n).map(|i| r[41 + i]).collect();
+                let pfs: Vec<_> = zs.iter().map(|z| Kzg::open(&powers, &p, *z, &st)).collect::<Result<Vec<_>, _>>().map_err(|e| format!("{:?}", e))?;
+                let vs: Vec<Fr381> = zs.iter().map(|z| p.evaluate(z)).collect();
+                let cs = vec![c; n];
+                let mut ds = kzg_batch_check(&vk, &cs, &zs, &vs, &pfs, seed, 0).class().to_string();
+                for i in 0..n {
+                    let mut bad = vs.clone();
+                    bad[i] += Fr381::one();
+                    ds.push('/');
+                    ds.push_str(kzg_batch_check(&vk, &cs, &zs, &bad, &pfs, seed, 0).class());
+                }
+                out.push((format!("decisions(true,each-false)/h={:?}", h), ds.into_bytes()));
+                let mut ds = String::new();
+                for i in 0..n {
+                    for j in (i + 1)..n {
+                        let mut bad = vs.clone();
+                        bad[i] += r[3];
+                        bad[j] -= r[3];
+                        ds.push_str(&kzg_batch_check(&vk, &cs, &zs, &bad, &pfs, seed, 1).class()[..1]);
+                    }
+                }
+                out.push((format!("decisions(cancelling-pairs)/h={:?}", h), ds.into_bytes()));
+            }
+        }
         "MLP" => {
             let mut rng = seed_rng(seed, 10);
             let pp = Mlp::setup(mn, &mut rng);
@@ -251,9 +288,9 @@ fn sparse_poly<F: ark_ff::PrimeField>(seed: u64, d: usize) -> UP<F> {
     UP::<F>::from_coefficients_vec(c)
 }
 
-pub const ITEMS: [&str; 22] = [
+pub const ITEMS: [&str; 24] = [
     "MAR", "SON", "IPA", "PST", "HYR", "LIG", "MLL", "BRK", "KZG", "MLP", "STR", "MAR-odd", "SON-odd", "IPA-odd", "PST-odd", "HYR-odd", "LIG-odd", "MLL-odd", "BRK-odd", "KZG-odd", "MLP-odd",
-    "STR-odd",
+    "STR-odd", "KZGB", "KZGB-odd",
 ];
 
 pub fn run_item(item: &str, seed: u64) -> Result<Outputs, String> {
